@@ -2,6 +2,7 @@ package checks
 
 import (
 	"github.com/influxdata/influxql"
+	"strings"
 )
 
 // schemaMapper is a FieldMapper over an explicit schema: per measurement name, typed fields and tag keys.
@@ -15,12 +16,32 @@ type schemaMapper struct {
 }
 
 func (s *schemaMapper) lookup(m *influxql.Measurement) (measSchema, bool) {
-	if ms, ok := s.M[m.Name]; ok {
-		return ms, true
-	}
-	ms, ok := s.M["*"]
-	return ms, ok
+	k, ok := s.key(m)
+	return s.M[k], ok
 }
+
+// key names the schema entry a measurement resolves to.
+func (s *schemaMapper) key(m *influxql.Measurement) (string, bool) {
+	// A measurement is identified by database, retention policy and name together, and a regex source by its pattern:
+	// `m1..q` has the schema registered as m1 whatever its name, and `/^m1/` that of m1 (two sources of one statement
+	// may then share a Name and still be different measurements).
+	if m.Database != "" {
+		if _, ok := s.M[m.Database]; ok {
+			return m.Database, true
+		}
+	}
+	if m.Regex != nil {
+		if k := strings.TrimPrefix(m.Regex.Val.String(), "^"); s.has(k) {
+			return k, true
+		}
+	}
+	if s.has(m.Name) {
+		return m.Name, true
+	}
+	return "*", s.has("*")
+}
+
+func (s *schemaMapper) has(k string) bool { _, ok := s.M[k]; return ok }
 
 func (s *schemaMapper) FieldDimensions(m *influxql.Measurement) (map[string]influxql.DataType, map[string]struct{}, error) {
 	ms, ok := s.lookup(m)
